@@ -26,7 +26,7 @@ func init() { core.Register("C01", core.Scenario{Run: Run, Replay: Replay}) }
 // connCase is one client connection with 1-4 requests.
 type connCase struct {
 	Kind     string              `json:"kind"` // "conn"
-	Mode     string              `json:"mode"` // "direct" | "upstream" | "upstream-auth" | "mitm"
+	Mode     string              `json:"mode"` // "direct" | "direct-gate" | "upstream" | "upstream-auth" | "pac-upstream" | "mitm" | "mitm-pac" | "direct-slow"
 	Rules    []string            `json:"rules,omitempty"`
 	Requests []*reqmodel.Request `json:"requests"`
 	Pipeline bool                `json:"pipeline,omitempty"` // all requests in one write
@@ -62,9 +62,24 @@ func (e *env) close() {
 
 const upUser, upPass = "upuser", "up:pa ss%"
 
+// the proxy's own basic auth ("direct-gate" mode)
+const gateUser, gatePass = "gate", "keeper-7:x"
+
+func gateValue() string {
+	return "Basic " + base64.StdEncoding.EncodeToString([]byte(gateUser+":"+gatePass))
+}
+
+// respExtra: field lines a scripted hop adds to its response to the request with a given Case-Id (history
+// cases: an origin RESPONSE that nominates names in Connection)
+var respExtra sync.Map
+
 func okResponder(w *rig.PeerConn, ex *rig.Exchange) bool {
 	body := "ok:" + ex.Req.Get("Case-Id")
-	b := rig.Head("HTTP/1.1 200 OK", []rig.Field{{Name: "Content-Length", Value: fmt.Sprint(len(body))}})
+	fields := []rig.Field{{Name: "Content-Length", Value: fmt.Sprint(len(body))}}
+	if x, ok := respExtra.Load(ex.Req.Get("Case-Id")); ok {
+		fields = append(fields, x.([]rig.Field)...)
+	}
+	b := rig.Head("HTTP/1.1 200 OK", fields)
 	if ex.Req.Method != "HEAD" {
 		b = append(b, body...)
 	}
@@ -103,7 +118,17 @@ func newEnv(ctx *core.Ctx, mode string, rules []string) (*env, error) {
 		}
 		hdrs = append(hdrs, h)
 	}
+	// PAC configurations: the upstream is chosen per request by a PAC script (the transport's Proxy function
+	// is then HTTPProxy.pacProxy, which is handed the very request the transport serialises afterwards)
+	pacScript := ""
+	switch mode {
+	case "mitm-pac":
+		pacScript = `function FindProxyForURL(url, host) { return "DIRECT"; }`
+	case "pac-upstream":
+		pacScript = `function FindProxyForURL(url, host) { if (url.substring(0, 5) == "http:") return "PROXY upstream.test:3128; DIRECT"; return "DIRECT"; }`
+	}
 	opts := rig.ProxyOpts{
+		PACScript: pacScript,
 		ConnectTo: []forwarder.HostPortPair{
 			rig.Route("origin.test", "80", e.origin.Addr),
 			rig.Route("origin.test", "8080", e.origin.Addr),
@@ -126,13 +151,15 @@ func newEnv(ctx *core.Ctx, mode string, rules []string) (*env, error) {
 			switch mode {
 			case "direct-slow":
 				cfg.ReadHeaderTimeout = 250 * time.Millisecond
+			case "direct-gate":
+				cfg.BasicAuth = urlUserPassword(gateUser, gatePass)
 			case "upstream":
 				cfg.UpstreamProxy = rig.MustURL("http://upstream.test:3128")
 			case "upstream-auth":
 				u := rig.MustURL("http://upstream.test:3128")
 				u.User = urlUserPassword(upUser, upPass)
 				cfg.UpstreamProxy = u
-			case "mitm":
+			case "mitm", "mitm-pac":
 				cfg.MITM = forwarder.DefaultMITMConfig()
 				cfg.PromRegistry = newRegistry()
 			}
@@ -143,7 +170,9 @@ func newEnv(ctx *core.Ctx, mode string, rules []string) (*env, error) {
 	}
 	e.cfg = reqmodel.Cfg{Name: "fwdverif", TimeAllowed: true, Rules: rules}
 	switch mode {
-	case "upstream":
+	case "direct-gate":
+		e.cfg.HasAuth, e.cfg.AuthUser, e.cfg.AuthPass = true, gateUser, gatePass
+	case "upstream", "pac-upstream":
 		e.cfg.Upstream = "upstream.test:3128"
 	case "upstream-auth":
 		e.cfg.Upstream = "upstream.test:3128"
@@ -178,7 +207,7 @@ func (e *env) open() (*rig.Client, error) {
 	if err != nil {
 		return nil, err
 	}
-	if e.mode != "mitm" {
+	if !isMITM(e.mode) {
 		return c, nil
 	}
 	c.Send([]byte("CONNECT origin.test:443 HTTP/1.1\r\nHost: origin.test:443\r\n\r\n"), nil)
@@ -202,7 +231,11 @@ func (e *env) learnTag() (string, error) {
 		return "", err
 	}
 	defer c.Close()
-	c.Send([]byte("GET /probe HTTP/1.1\r\nHost: origin.test\r\nCase-Id: probe\r\nConnection: close\r\n\r\n"), nil)
+	auth := ""
+	if e.mode == "direct-gate" {
+		auth = "Proxy-Authorization: " + gateValue() + "\r\n"
+	}
+	c.Send([]byte("GET /probe HTTP/1.1\r\nHost: origin.test\r\nCase-Id: probe\r\n"+auth+"Connection: close\r\n\r\n"), nil)
 	if _, err := c.ReadResponse("GET", 5*time.Second); err != nil {
 		return "", fmt.Errorf("probe: %w", err)
 	}
@@ -218,8 +251,10 @@ func (e *env) learnTag() (string, error) {
 	return f[1], nil
 }
 
+func isMITM(mode string) bool { return mode == "mitm" || mode == "mitm-pac" }
+
 func schemeOf(mode string) string {
-	if mode == "mitm" {
+	if isMITM(mode) {
 		return "https"
 	}
 	return "http"
@@ -234,7 +269,7 @@ func (e *env) runConn(ctx *core.Ctx, cc *connCase) {
 		return
 	}
 	defer c.Close()
-	mctx := reqmodel.Ctx{ClientIP: "127.0.0.1", Secure: e.mode == "mitm"}
+	mctx := reqmodel.Ctx{ClientIP: "127.0.0.1", Secure: isMITM(e.mode)}
 
 	var wire [][]byte
 	for _, r := range cc.Requests {
@@ -316,7 +351,7 @@ func (e *env) runConn(ctx *core.Ctx, cc *connCase) {
 		wantPeer := e.origin
 		if out.HopKind == "proxy" {
 			wantPeer = e.up
-		} else if e.mode == "mitm" {
+		} else if isMITM(e.mode) {
 			wantPeer = e.tlsOrig
 		}
 		obs := ex.Req
@@ -548,9 +583,22 @@ func specViolations(cfg *reqmodel.Cfg, x *reqmodel.Ctx, r *reqmodel.Request, obs
 		case k == "upgrade" && upgradeRequested && len(got) == 1 && got[0] == in["upgrade"][0]:
 		case k == "transfer-encoding" || k == "trailer":
 		case k == "proxy-authorization" && cfg.UpstreamAuth != nil && len(got) == 1 && got[0] == *cfg.UpstreamAuth:
-		case managed[k]:
-			// a nominated managed name (e.g. Connection: user-agent) that the proxy re-creates itself
 		case ruleTouched(k):
+		case k == "authorization":
+			// nominated by Connection: the client's value is for this hop only; the origin may see the site
+			// credential the proxy attaches itself, nothing else
+			if !(cfg.SiteCred != nil && len(got) == 1 && got[0] == *cfg.SiteCred) {
+				add("hop-by-hop fields are removed", "", fmt.Sprintf("%s: %q", k, got))
+			}
+		case k == "x-forwarded-host":
+			// nominated: removed, then filled in by the proxy with the request's host
+			if len(got) != 1 || got[0] != wantHost {
+				add("hop-by-hop fields are removed", "", fmt.Sprintf("%s: %q", k, got))
+			}
+		case managed[k]:
+			// a nominated managed name (e.g. Connection: user-agent) that the proxy re-creates itself: Via,
+			// X-Forwarded-For, Accept-Encoding, User-Agent have their own clauses below
+
 		default:
 			add("hop-by-hop fields are removed", "", fmt.Sprintf("%s: %q", k, got))
 		}
